@@ -29,6 +29,10 @@ pub struct Trace {
     /// stored meta-blocks.
     #[serde(default)]
     pub rewrap_woff2: bool,
+    /// Image mode, bare sfnt corpus fonts: the (surgered, table-faulted) disk model is wrapped as
+    /// a WOFF2 file with null transforms and served by the real `Woff2TableProvider`.
+    #[serde(default)]
+    pub wrap_woff2: bool,
     #[serde(default)]
     pub surgery: Vec<Surgery>,
     #[serde(default)]
@@ -256,6 +260,15 @@ pub enum Op {
     Instance { coords: Vec<i32> },
     /// WOFF / WOFF2 extended metadata (Image mode).
     Metadata,
+    /// Decode ANOTHER byte string on the same thread: corpus file `font`, optionally cut to `cut`
+    /// bytes (so that decoding fails part-way), `FontData::read` + `table_provider(index)` + every
+    /// table. In a history this perturbs whatever process- or thread-wide state the library keeps
+    /// between font objects; as an op it is itself a pure decode.
+    Decoy {
+        font: String,
+        index: usize,
+        cut: Option<usize>,
+    },
     /// Fetch every table of the provider (for WOFF2: the reconstructed glyf/loca/hmtx and the
     /// rest) so that C09 can check them for mutual consistency.
     Reconstruct,
@@ -288,6 +301,7 @@ impl Op {
             Op::Instance { .. } => "Instance",
             Op::Metadata => "Metadata",
             Op::Reconstruct => "Reconstruct",
+            Op::Decoy { .. } => "Decoy",
         }
     }
 
